@@ -23,7 +23,7 @@ pub fn prop() -> Prop {
     Prop {
         id: "C10",
         level: "exploration",
-        rule: "proptest tapes decoding to a framebuffer configuration (7 raw widths x 2 data orders x sizes 9x3, 5x2, 8x2, 1x1 -- rows ending on and off a byte boundary -- and, one case in 25, 300x2 with exact N or 2x300 with one spare byte and, for two sizes, N = buffer_size + 3) and a history of 1..=24 operations from {set_pixel, draw_iter with several pixels, fill_solid, clear, draw a styled rectangle/circle/line/triangle, draw a raw image} with points inside and up to 3 pixels outside every edge and also far outside (i32 extremes). Oracle (model-based): a last-write map; after every operation pixel(p) == model for every p in the box plus a margin (zero colour if never written, None outside), data() equals the byte image computed from the model by an independent writer of the documented ImageRaw layout (so writes outside change no byte and surplus bytes stay 0), as_image() has the framebuffer's size, as_image().pixel == pixel, and drawing as_image() onto a recording target reproduces the model. Non-trivial: at least two writes landed at different x modulo the pixels per byte and one written pixel was overwritten with a different colour.",
+        rule: "proptest tapes decoding to a framebuffer configuration (7 raw widths x 2 data orders x sizes 9x3, 5x2, 8x2, 1x1 -- rows ending on and off a byte boundary -- and, one case in 25, 300x2 with exact N or 2x300 with one spare byte, and, one case in 200, 65540x1 or 1x65540 with at most 3 operations and, for two sizes, N = buffer_size + 3) and a history of 1..=24 operations from {set_pixel, draw_iter with several pixels, fill_solid, clear, draw a styled rectangle/circle/line/triangle, draw a raw image} with points inside and up to 3 pixels outside every edge and also far outside (i32 extremes). Oracle (model-based): a last-write map; after every operation pixel(p) == model for every p in the box plus a margin (zero colour if never written, None outside), data() equals the byte image computed from the model by an independent writer of the documented ImageRaw layout (so writes outside change no byte and surplus bytes stay 0), as_image() has the framebuffer's size, as_image().pixel == pixel, and drawing as_image() onto a recording target reproduces the model. Non-trivial: at least two writes landed at different x modulo the pixels per byte and one written pixel was overwritten with a different colour.",
         assumptions: vec![
             "framebuffer sizes are const generics, so a fixed list of sizes is instantiated",
             "the effect of a drawable on the model is taken from drawing it onto the unbounded recording target (pinned by C01) and keeping the points inside the framebuffer",
@@ -88,6 +88,9 @@ fn histories(d: &mut Dec, cx: &mut Cx) -> Res {
     // sizes 0..=5 equally likely; one case in 25 uses a 300x2 or a 2x300 framebuffer (byte offsets and
     // row numbers beyond 255)
     let size_sel = { let k = d.u(0, 49); if k >= 48 { 6 + (k - 48) } else { k % 6 } };
+    // auxiliary words 5 and 6: one case in 200 uses a 65540x1 or 1x65540 framebuffer (coordinates, byte
+    // and pixel offsets beyond 65535), with at most 3 operations
+    let size_sel = if d.aux_u(5, 0, 199) == 199 { 8 + d.aux_u(6, 0, 1) } else { size_sel };
     let be = combo % 2 == 1;
     macro_rules! sizes {
         ($c:ty, $r:ty, $o:ty, $bpp:expr) => {
@@ -99,6 +102,8 @@ fn histories(d: &mut Dec, cx: &mut Cx) -> Res {
                 4 => run::<$c, Framebuffer<$c, $r, $o, 8, 2, { bufsize(8, 2, $bpp) + 3 }>>(d, cx, $bpp, be, 8, 2, 3),
                 6 => run::<$c, Framebuffer<$c, $r, $o, 300, 2, { bufsize(300, 2, $bpp) }>>(d, cx, $bpp, be, 300, 2, 0),
                 7 => run::<$c, Framebuffer<$c, $r, $o, 2, 300, { bufsize(2, 300, $bpp) + 1 }>>(d, cx, $bpp, be, 2, 300, 1),
+                8 => run::<$c, Framebuffer<$c, $r, $o, 65540, 1, { bufsize(65540, 1, $bpp) }>>(d, cx, $bpp, be, 65540, 1, 0),
+                9 => run::<$c, Framebuffer<$c, $r, $o, 1, 65540, { bufsize(1, 65540, $bpp) }>>(d, cx, $bpp, be, 1, 65540, 0),
                 _ => run::<$c, Framebuffer<$c, $r, $o, 1, 1, { bufsize(1, 1, $bpp) }>>(d, cx, $bpp, be, 1, 1, 0),
             }
         };
@@ -142,6 +147,10 @@ where
 }
 
 fn coord(d: &mut Dec, n: i32) -> i32 {
+    if n > 60_000 && d.ratio(1, 2) {
+        // the 65540-px framebuffers: around 2^16 and at the far end
+        return (d.pick(&[65_535, 65_536, 65_537, 65_539, 32_768, 65_534]) + d.i(-1, 1)).min(n + 1);
+    }
     match d.u(0, 11) {
         0 => d.i(-3, -1),
         1 => n + d.i(0, 2),
@@ -165,7 +174,11 @@ where
     // the helper functions that applications use to size the buffer
     let (bs, bsb) = (embedded_graphics::framebuffer::buffer_size::<C>(w as usize, h as usize), embedded_graphics::framebuffer::buffer_size_bpp(w as usize, h as usize, bpp));
     ensure!(bs == used && bsb == used, "buffer_size", "buffer_size::<C>({}, {}) = {}, buffer_size_bpp(.., {}) = {}, rows padded to whole bytes need {}", w, h, bs, bpp, bsb, used);
-    let nops = d.u(1, 24);
+    // 65540-px framebuffers: few operations, all of them local (lines and triangles of display scale only;
+    // a line longer than 46340 px is outside the domain of the primitives), read-back on windows around
+    // 0, 2^15, 2^16, the far end and every touched coordinate instead of on all 330 000 points
+    let huge = w.max(h) > 60_000;
+    let nops = if huge { d.u(1, 3) } else { d.u(1, 24) };
     let mut log: Vec<String> = vec![];
     let want = cx.want_desc;
     let mut xs_mod = std::collections::BTreeSet::new();
@@ -196,7 +209,8 @@ where
                 apply(&mut model, p, c, &mut xs_mod, &mut overwritten);
             }
             4 => {
-                let n = d.u(0, 6);
+                // (the 300-px framebuffers: up to 330 pixels in one iterator)
+                let n = d.u(0, 6) * if w.max(h) >= 300 { 55 } else { 1 };
                 let mut px = vec![];
                 for _ in 0..n {
                     let p = Point::new(coord(d, w), coord(d, h));
@@ -212,7 +226,11 @@ where
                 }
             }
             5 => {
-                let area = Rectangle::new(Point::new(d.i(-3, w + 1), d.i(-3, h + 1)), Size::new(d.u(0, w as u32 + 4), d.u(0, h as u32 + 4)));
+                let area = if huge {
+                    Rectangle::new(Point::new(coord(d, w).clamp(-100_000, 100_000) - 2, coord(d, h).clamp(-100_000, 100_000) - 2), Size::new(d.u(0, 9), d.u(0, 9)))
+                } else {
+                    Rectangle::new(Point::new(d.i(-3, w + 1), d.i(-3, h + 1)), Size::new(d.u(0, w as u32 + 4), d.u(0, h as u32 + 4)))
+                };
                 let (c, v) = color::<C>(d, bpp);
                 if want {
                     log.push(format!("fill_solid({:?}, raw {:#x})", area, v));
@@ -241,11 +259,14 @@ where
                     b = b.fill_color(fc);
                 }
                 let style = b.build();
-                let p0 = Point::new(d.i(-3, w + 1), d.i(-3, h + 1));
+                let p0 = if huge { Point::new(coord(d, w).clamp(-100_000, 100_000), coord(d, h).clamp(-100_000, 100_000)) } else { Point::new(d.i(-3, w + 1), d.i(-3, h + 1)) };
+                // second and third vertex of lines / triangles
+                let vertex = |d: &mut Dec| if huge { p0 + Point::new(d.i(-9, 9), d.i(-9, 9)) } else { Point::new(d.i(-3, w + 1), d.i(-3, h + 1)) };
                 let mut rec = NativeT::<C>::new();
                 rec.0.log = false;
                 let what;
-                match d.u(0, 3) {
+                // (no triangles at coordinates around 2^16: `Triangle::area_doubled` multiplies absolute coordinates in i32)
+                match if huge { d.u(0, 2) } else { d.u(0, 3) } {
                     0 => {
                         let s = Rectangle::new(p0, Size::new(d.u(0, 8), d.u(0, 5))).into_styled(style);
                         what = format!("{:?}", s.primitive);
@@ -259,13 +280,13 @@ where
                         s.draw(&mut rec).unwrap();
                     }
                     2 => {
-                        let s = Line::new(p0, Point::new(d.i(-3, w + 1), d.i(-3, h + 1))).into_styled(style);
+                        let s = Line::new(p0, vertex(d)).into_styled(style);
                         what = format!("{:?}", s.primitive);
                         s.draw(&mut fb).unwrap();
                         s.draw(&mut rec).unwrap();
                     }
                     _ => {
-                        let s = Triangle::new(p0, Point::new(d.i(-3, w + 1), d.i(-3, h + 1)), Point::new(d.i(-3, w + 1), d.i(-3, h + 1))).into_styled(style);
+                        let s = Triangle::new(p0, vertex(d), vertex(d)).into_styled(style);
                         what = format!("{:?}", s.primitive);
                         s.draw(&mut fb).unwrap();
                         s.draw(&mut rec).unwrap();
@@ -292,7 +313,7 @@ where
                         x as u8
                     })
                     .collect();
-                let at = Point::new(d.i(-3, w + 1), d.i(-3, h + 1));
+                let at = if huge { Point::new(coord(d, w).clamp(-100_000, 100_000) - 2, coord(d, h).clamp(-100_000, 100_000) - 1) } else { Point::new(d.i(-3, w + 1), d.i(-3, h + 1)) };
                 let img = ImageRaw::<C, LittleEndianMsb0>::new(&data, Size::new(iw, ih)).unwrap();
                 if want {
                     log.push(format!("draw image {}x{} data {:02x?} at {:?}", iw, ih, data, at));
@@ -309,8 +330,31 @@ where
 
         // ---- compare with the model after every operation -------------------------------
         let ctx = |what: &str| format!("after operation {} ({})", step, what);
-        for y in -2..h + 2 {
-            for x in -2..w + 2 {
+        let axis = |n: i32, pick: fn(&(i32, i32)) -> i32, model: &Map<C>| -> Vec<i32> {
+            if n <= 60_000 {
+                return (-2..n + 2).collect();
+            }
+            let mut v: std::collections::BTreeSet<i32> = Default::default();
+            let mut window = |c: i32| {
+                for k in c - 3..=c + 3 {
+                    if k >= -2 && k < n + 2 {
+                        v.insert(k);
+                    }
+                }
+            };
+            for c in [0, 255, 256, 32_767, 32_768, 65_535, 65_536, n - 1, n] {
+                window(c);
+            }
+            // every written coordinate (a cleared framebuffer has them all: sample every 997th then)
+            let step = if model.len() > 5000 { 997 } else { 1 };
+            for k in model.keys().step_by(step) {
+                window(pick(k));
+            }
+            v.into_iter().collect()
+        };
+        let (xs, ys) = (axis(w, |k| k.0, &model), axis(h, |k| k.1, &model));
+        for &y in &ys {
+            for &x in &xs {
                 let p = Point::new(x, y);
                 let exp = if inside(p) { Some(*model.get(&(x, y)).unwrap_or(&zero)) } else { None };
                 let got = fb.pixel(p);
